@@ -27,6 +27,20 @@ func runC16(c *Ctx) {
 	// R1
 	cb := p.MustMethod(pkgConsensus, "RaftNode", "CreateBackup")
 	{
+		// a CreateBackup that reports success has asked the store for a backup on that very call (no memo of
+		// "already taken": the earlier backup may have been deleted since)
+		rgB := p.RegionOf(cb, 3)
+		escB := rgB.EscapesWithoutDeep(func(in ssa.Instruction) bool {
+			cc := callCommon(in)
+			return cc != nil && cc.IsInvoke() && cc.Method.Name() == "Backup"
+		}, mustOpts{skipErrEdges: true})
+		posB := cb.Pos()
+		if escB != nil {
+			posB = escB.Pos()
+		}
+		c.Check(escB == nil, "R1", funcName(cb)+":always-backs-up", posB, "every successful CreateBackup passes through the store's Backup", "CreateBackup can report success without asking the store for a backup: a backup that was deleted meanwhile (or never completed) is then believed to exist, and a restore silently goes back to an older one")
+	}
+	{
 		rg := p.RegionOf(cb, 3)
 		rcalls := rg.Calls(func(k *ssa.CallCommon) bool { return k.IsInvoke() && k.Method.Name() == "Backup" })
 		var calls []ssa.Instruction
